@@ -305,6 +305,55 @@ def run_all_in_one(params, st, keep_log=False):
     return C.execute(scn, st, keep_log, extra=extra, prop="C18")
 
 
+def run_home_switch(params, st, keep_log=False):
+    """One process: load a remote dataset with TRAFFIC_WEAVER_DATA=A, change the variable to B (or unset it), load
+    again: the second cache entry must appear under B (or under $HOME/.traffic-weaver-data), nothing new under A."""
+    names = [n for _, n in doc_names() if not is_bundled(n) and ds_for(n) is not None]
+    first = st.pick(names, "first")
+    second = st.pick(names, "second") if st.coin(2, 3, "other-dataset") else first
+    to_unset = st.coin(1, 3, "unset-instead")
+    scn = _scn([], [_raw(first, False)], home="env")
+    scn["one_process"] = True
+    scn["case"] = {"home-switch": [first, second], "then": "unset" if to_unset else "B"}
+
+    def extra(run, actors, phase):
+        if phase != "pre":
+            return
+        a = actors[0]
+        key = f"name={second}"
+        if a.exc is not None:
+            run.fail("documented-name-load-failed", f"name={first}", f"load_dataset({first!r}) raised {type(a.exc).__name__}: {a.exc}")
+        before = set(tree(run.root))
+        home_b = os.path.join(run.root, "homeB")
+        default_home = os.path.join(run.user_home, ".traffic-weaver-data")
+        if to_unset:
+            os.environ.pop("TRAFFIC_WEAVER_DATA", None)
+            want = default_home
+        else:
+            os.environ["TRAFFIC_WEAVER_DATA"] = home_b
+            want = home_b
+        b = run.spawn_loader(_raw(second, False), role="again")
+        b.attrs["proc"] = a.attrs.get("proc", ("process", 0))
+        run.sim.run(on_step=run.on_step, step_cap=run.sim.step + 400)
+        what = f"load_dataset({second!r}) after TRAFFIC_WEAVER_DATA was " + ("unset" if to_unset else "changed to another directory") + \
+            f" in the same process (first load: {first!r})"
+        if b.exc is not None:
+            run.fail("documented-name-load-failed", key, f"{what} raised {type(b.exc).__name__}: {b.exc}")
+        well_formed(run, b.result, False, ds_for(second).expected, key, what)
+        new = sorted(set(tree(run.root)) - before)
+        inside = os.path.relpath(want, run.root) + os.sep
+        stray = [f for f in new if not f.startswith(inside)]
+        if stray:
+            run.fail("cache-outside-data-home", key, f"{what}: new files outside the data home now in force: {stray[:3]}")
+        if not new:
+            run.fail("nothing-cached", key, f"{what}: nothing was cached under the data home now in force "
+                     f"(served from the old one: {b.attrs.get('net_calls', 0)} downloads)")
+
+    res = C.execute(scn, st, keep_log, extra=extra, prop="C18")
+    res.nontrivial = True
+    return res
+
+
 def run_static(params, st, keep_log=False):
     """Pairwise distinctness of remote file, checksum and cache slot over all documented remote datasets."""
     res = R.Result()
@@ -348,6 +397,8 @@ def _run(params, st, keep_log=False):
         return run_all_in_one(params, st, keep_log)
     if gen == "static":
         return run_static(params, st, keep_log)
+    if gen == "switch":
+        return run_home_switch(params, st, keep_log)
     raise R.HarnessError(f"unknown generator {gen}")
 
 
@@ -368,6 +419,7 @@ def plan(tier, verif_seed):
             units.append({"gen": "name", "name": name, "variant": "doc", "unpack": False, "home": home})
     units.extend({"gen": "all", "home": "env", "one_process": i % 2 == 0} for i in range(2 if tier == "quick" else 24))
     units.append({"gen": "all", "home": "default"})
+    units.extend({"gen": "switch"} for _ in range(60 if tier == "quick" else 600))
     units.extend({"gen": "unknown"} for _ in range(300 if tier == "quick" else 5000))
     units.extend({"gen": "unknown", "attr": a} for a in lookup_attribute_names())
     return units
